@@ -482,6 +482,10 @@ top:
 		if err != nil {
 			return err
 		}
+		if r == '*' {
+			// "**": the first star is content, the second may still close the comment
+			return nil
+		}
 		lexer.state = LexerCommentBlock
 		goto writeRuneToBuffer
 
